@@ -1494,7 +1494,16 @@ impl ConnectionHandler for VarlinkService {
             // pop the last zero byte
             buf.pop();
 
-            let req: Request = serde_json::from_slice(&buf).map_err(|e| {
+            // a message has to be valid UTF-8 as a whole; serde_json does not
+            // validate the strings it skips in members it does not know
+            let text = std::str::from_utf8(&buf).map_err(|e| {
+                context!(
+                    e,
+                    ErrorKind::SerdeJsonDe(String::from_utf8_lossy(&buf).to_string())
+                )
+            })?;
+
+            let req: Request = serde_json::from_str(text).map_err(|e| {
                 context!(
                     e,
                     ErrorKind::SerdeJsonDe(String::from_utf8_lossy(&buf).to_string())
